@@ -447,6 +447,31 @@ def r13_3(model: Model, rep: Report) -> None:
         if not looks:
             problems.append("a summed variable is removed from the joint on a path that never compares the ranges with the children's intervention subscripts: "
                             "Sum[B](P(B, C @ B)) becomes P(C @ B), in which the summed B is left behind as a free subscript (variable capture)")
+        # ... and the children are looked up BY BASE VARIABLE (the map K): the lookup is one-to-one only if no base occurs twice among the
+        # children.  P(C @ A, C @ B) mentions C twice: K keeps one of the two, Sum[C] of it "covers every child" and becomes One() although
+        # Σ_c P(C_a = c, C_b = c) = P(C_a = C_b) < 1, and Sum[D](P(D, B @ A, B @ E)) loses B @ A.  A path that never looks at how often a
+        # base occurs (a cardinality, a count, a comparison of pairs of children) cannot exclude that.
+        CH = ("attr", X, "children")
+
+        def _multiplicity_aware(c_):
+            subs = list(subterms(c_))
+            if not any(s_ == CH or s_ == K for s_ in subs):
+                return False
+            for s_ in subs:
+                if s_[0] == "len":
+                    return True
+                if s_[0] == "call" and isinstance(s_[1], str) and s_[1].split(".")[-1] in ("len", "Counter", "combinations", "permutations", "groupby", "most_common"):
+                    return True
+                if s_[0] == "meth" and s_[2] in ("count", "most_common", "__len__"):
+                    return True
+                if s_[0] == "comp" and sum(1 for _pat, it_, _cs in s_[3] if any(u_ == CH for u_ in subterms(it_))) >= 2:
+                    return True
+            return False
+
+        if not any(_multiplicity_aware(c_) for c_ in p.conds):
+            problems.append("the children are looked up by base variable on a path that never looks at how often a base occurs among them: in P(C @ A, C @ B) the "
+                            "variable C appears twice, the lookup keeps one of the two children, and Sum[C](P(C @ A, C @ B)) becomes One() although "
+                            "Σ_c P(C_a = c, C_b = c) < 1 in general (Sum[D](P(D, B @ A, B @ E)) likewise loses B @ A)")
         for c in p.conds:
             axioms.extend(_universal_instances(c, k, sa, R, K))
         # decompose the returned value
